@@ -161,6 +161,7 @@ class C07(Prop):
         else:
             ports = self.rig.free_ports(nports)
         log = self.rig.log
+        log.consumer_edits = (i % 2 == 1)     # in every other history the consumer renames what it was given (every third delivery)
         log.clear()
         if not hasattr(self, "keep"):
             from ..monitors.keepsake import Keep
